@@ -139,7 +139,12 @@ class ExprMixin:
                         # drop the guard only: definitions of fresh symbols made while
                         # evaluating the operand stay (conservative extensions)
                         del self.pc[len(saved[0])]
-                    merged = self.ite_val(tc, nv, cur) if is_and else self.ite_val(tc, cur, nv)
+                    if isinstance(cur, (bool, SBool)) and isinstance(nv, (bool, SBool)):
+                        # booleans: a and b == a /\ b (not ite(a, b, a), which doubles the term)
+                        tn = self.truth(nv)
+                        merged = self.as_bool_value(smt.And(tc, tn) if is_and else smt.Or(tc, tn))
+                    else:
+                        merged = self.ite_val(tc, nv, cur) if is_and else self.ite_val(tc, cur, nv)
                 except NeedFork:
                     merged = None
                 except TargetExc:
